@@ -500,6 +500,33 @@ theorem ema_closed_form (m : Rat) (bs : List Rat) (ra : Rat) :
 
 example : [2, 4].foldl (ema (1 / 2)) 0 = 5 / 2 := by decide +kernel
 
+/-! ### call-time flags: `use_running_average` / `deterministic` resolution -/
+
+/-- NNX (`first_from`): a flag given at call time always wins — in particular an explicit `False` on a layer that is in
+inference mode (constructed with `True`, or after `.eval()`) -/
+theorem resolve_flag_call_wins (b : Bool) (attr : Option Bool) : resolveFlag (some b) attr = .ok b := rfl
+
+/-- … without a call-time flag the attribute decides, and with neither the layer refuses -/
+theorem resolve_flag_falls_back (attr : Option Bool) :
+    resolveFlag none attr = (match attr with | some b => .ok b | none => .error "NoFlag") := by
+  cases attr <;> rfl
+
+/-- the `call or attr` slip is not this function: called with `False` on an inference-mode layer it answers `True`
+(running statistics used, no update), and with `False` on a layer without attribute it refuses instead of training -/
+theorem resolve_flag_or_counterexample :
+    resolveFlagOr (some false) (some true) = .ok true ∧ resolveFlag (some false) (some true) = .ok false ∧
+    resolveFlagOr (some false) none = .ok false ∧ resolveFlagOr none none = .error "NoFlag" := by decide
+
+/-- Linen (`merge_param`): exactly one of constructor attribute and call argument must be given -/
+theorem merge_param_exactly_one (attr call : Option Bool) (b : Bool) :
+    mergeParam attr call = .ok b ↔ (attr = none ∧ call = some b) ∨ (attr = some b ∧ call = none) := by
+  cases attr <;> cases call <;> simp [mergeParam]
+
+/-- where both APIs accept the configuration they resolve the flag identically -/
+theorem merge_param_agrees_with_first_from (attr call : Option Bool) (b : Bool) (h : mergeParam attr call = .ok b) :
+    resolveFlag call attr = .ok b := by
+  cases attr <;> cases call <;> simp_all [mergeParam, resolveFlag]
+
 /-! ### Dropout (`dropout_branches`) -/
 
 theorem dropout_deterministic_identity (bern : Nat → Rat → List Nat → Tensor Bool) (key num den : Nat)
